@@ -170,12 +170,16 @@ impl Check for OpenClose {
         let lift = e.chance(1, 16);
         let cfg = GenCfg { closes: true, old_syn: !simultaneous, inject: false, max_ops: 120, byte_budget: 200_000, exclude_close_with_unsent: !lift };
         let nops = 5 + e.choose(cfg.max_ops - 4);
+        // in 3/8 of the cases a legitimate prelude first drives the connection to a later state, so that closes,
+        // faults and old duplicates also meet FIN-WAIT-2, CLOSING, LAST-ACK and TIME-WAIT often
+        let plan = if ctx.legacy_layout { PreludePlan { target: 0, closer: 0, write: [0, 0] } } else { PreludePlan::decode(e, &[10, 1, 1, 1, 1, 1, 1]) };
         let mut left = cfg.byte_budget;
         let mut excluded = 0u64;
         let mut ops = vec![];
         let mut old_syn_used = false;
         let mut measured: Option<(bool, u32)> = None;
         let result = (|| -> Result<(), Failure> {
+            run_prelude(&mut w, &plan, &mut ops)?;
             for _ in 0..nops {
                 let op = gen_op(e, &w, &cfg, &mut left, &mut excluded);
                 if matches!(op, Op::OldSyn { .. }) {
@@ -254,6 +258,9 @@ impl Check for OpenClose {
         ctx.nontrivial = both_est && w.stats.closes >= 1 && (w.stats.ctl_fault || w.stats.data_in_flight_at_close || both_closed);
         if both_closed {
             ctx.class("both_closed");
+        }
+        for c in &w.stats.close_called_in {
+            ctx.class(c);
         }
         if w.stats.data_in_flight_at_close {
             ctx.class("data_in_flight_at_close");
@@ -409,7 +416,7 @@ impl Check for HostileSegments {
         "C17"
     }
     fn rule(&self) -> String {
-        "generated: a legitimate C01/C03 schedule (incl. closes) interleaved with crafted segments delivered to either endpoint from its peer's address: all 64 flag sets (mass on ACK, PSH-ACK, FIN-ACK, SYN, SYN-ACK, RST), seq at RCV.NXT+{-2..2}, RCV.NXT+WND+{-1,0,1}, RCV.NXT+0..70000, RCV.NXT+2^31+-1, random; ack at SND.UNA-1, SND.UNA+0..2, SND.NXT, SND.NXT+1..3, random; window 65535 / 0 / <200 / random (so shrinking windows occur); payload 0..MSS; also at LISTEN and CLOSED. oracles: no TCB call panics; every new data segment ends at or before SND.UNA+SND.WND of the snapshot taken before the segments() call (+1 while the own SYN is unacknowledged), and a segment that is certainly the newest acknowledgment (processed at once, seq = RCV.NXT, ack advancing SND.UNA) leaves SND.WND equal to the window it advertises; a crafted segment that must be rejected (entirely outside [RCV.NXT-1, RCV.NXT+WND) in a synchronised state, or neither SYN nor RST in SYN-SENT) leaves status() unchanged and releases nothing; as long as only such rejectable segments were forged the stream keeps C01's prefix property; a fair phase afterwards runs without panic. non-trivial: at least one crafted segment was processed in a synchronised state with seq or ack within 2 of a window edge / SND.UNA / SND.NXT. distinct: hash of decoded schedule".into()
+        "generated: a legitimate C01/C03 schedule (incl. closes) preceded in 13/16 of the cases by a legitimate prelude that drives the connection to ESTABLISHED, FIN-WAIT-1, FIN-WAIT-2/CLOSE-WAIT, CLOSING, LAST-ACK or TIME-WAIT (with 0..3000 bytes written each way), interleaved with crafted segments delivered to either endpoint from its peer's address: all 64 flag sets (mass on ACK, PSH-ACK, FIN-ACK, SYN, SYN-ACK, RST), seq at RCV.NXT+{-2..2}, RCV.NXT+WND+{-1,0,1}, RCV.NXT+0..70000, RCV.NXT+2^31+-1, random; ack at SND.UNA-1, SND.UNA+0..2, SND.NXT, SND.NXT+1..3, random; window 65535 / 0 / <200 / random (so shrinking windows occur); payload 0..MSS; also at LISTEN and CLOSED. oracles: no TCB call panics; every new data segment ends at or before SND.UNA+SND.WND of the snapshot taken before the segments() call (+1 while the own SYN is unacknowledged), and a segment that is certainly the newest acknowledgment (processed at once, seq = RCV.NXT, ack advancing SND.UNA) leaves SND.WND equal to the window it advertises; a crafted segment that must be rejected (entirely outside [RCV.NXT-1, RCV.NXT+WND) in a synchronised state, or neither SYN nor RST in SYN-SENT) leaves status() unchanged and releases nothing; as long as only such rejectable segments were forged the stream keeps C01's prefix property; a fair phase afterwards runs without panic. non-trivial: at least one crafted segment was processed in a synchronised state with seq or ack within 2 of a window edge / SND.UNA / SND.NXT. distinct: hash of decoded schedule".into()
     }
     fn assumptions(&self) -> Vec<String> {
         vec!["an acceptable forged segment (in window) may legitimately change state and data; from then on only the no-panic and send-window oracles apply".into()]
@@ -426,10 +433,14 @@ impl Check for HostileSegments {
         w.check_transitions = false; // forged segments may take any receive edge; C03 owns that oracle
         let cfg = GenCfg { closes: true, old_syn: false, inject: true, max_ops: 120, byte_budget: 200_000, exclude_close_with_unsent: true };
         let nops = 5 + e.choose(cfg.max_ops - 4);
+        // prelude: drive the connection with legitimate operations to a chosen state before the forgeries start,
+        // otherwise most forged segments meet the handshake states only
+        let plan = if ctx.legacy_layout { PreludePlan { target: 0, closer: 0, write: [0, 0] } } else { PreludePlan::decode(e, &[3, 3, 2, 2, 2, 2, 2]) };
         let mut left = cfg.byte_budget;
         let mut excluded = 0u64;
         let mut ops = vec![];
         let res = (|| -> Result<(), Failure> {
+            run_prelude(&mut w, &plan, &mut ops)?;
             for _ in 0..nops {
                 let op = gen_op(e, &w, &cfg, &mut left, &mut excluded);
                 ops.push(op.clone());
@@ -455,6 +466,9 @@ impl Check for HostileSegments {
         }
         if w.stats.window_updates_checked > 0 {
             ctx.class("window_change_by_newest_ack_checked");
+        }
+        for st in &w.stats.injected_in {
+            ctx.class(st);
         }
         if (0..2).any(|s| matches!(w.state(s), Some(State::Established))) {
             ctx.class("connection_survived");
